@@ -262,16 +262,44 @@ def dispatch(ctx):
         ok = f == {"subscriptions"} and any(c.endswith("linear_search_by_key") or c.endswith("Iterator::position") for c in calls) and "subscription_identifier" in keyf
         out.append(Inst("DISPATCH", "receiver", ok, e.site(), "receiver from Session.%s via %s keyed by PublishRx.%s" % (sorted(f), sorted(short_ty(c) for c in calls if "search" in c or c.endswith("::position")), sorted(keyf)),
                         "subscriptions[linear_search_by_key(subscriptions, publish.subscription_identifier)]"))
+        # the key is the identifier the PUBLISH carries and nothing else: a key made up from the collection itself ("there
+        # is only one subscription, take it") routes a message to a stream it was not sent for
+        for i_, t_ in hp.calls(r"(linear_search_by_key|Iterator::position)$"):
+            if not any(a[0] == "field" and a[1] == SESSION and a[2] == "subscriptions" for a in hp.atoms(t_["ops"][0])):
+                continue
+            if (callee_name(t_) or "").endswith("linear_search_by_key"):
+                kat = hp.atoms(t_["ops"][1]) if len(t_["ops"]) > 1 else set()
+            else:
+                kat = set()
+                for a in hp.atoms(t_["ops"][1]) if len(t_["ops"]) > 1 else ():
+                    if a[0] == "closure":
+                        cb_ = ctx.world.body(a[1])
+                        cap = [x for x in cb_.upvar_names.values()] if hasattr(cb_, "upvar_names") else []
+                # the captured key of an inline search: the operands of the closure literal
+                o_ = hp.origin(t_["ops"][1], through_calls=False) if len(t_["ops"]) > 1 else ("?",)
+                if o_[0] == "agg":
+                    for x_ in o_[2]["rv"]["ops"]:
+                        kat |= hp.atoms(x_)
+            from_coll = sorted({a[1].split("::")[-1] for a in kat if a[0] == "call" and re.search(r"VecDeque(::<[^>]*>)?::(front|back|get|len|iter|is_empty)$|Iterator::(next|last|nth)$", a[1])}
+                               | {"Session.%s" % a[2] for a in kat if a[0] == "field" and a[1] == SESSION})
+            out.append(Inst("DISPATCH", "key-from-packet-only#%d" % len([o__ for o__ in out if "key-from-packet-only" in o__.key]), not from_coll, hp.site(i_),
+                            "the key of the subscription lookup derives from %s%s" % (sorted({"%s.%s" % (short_ty(a[1]), a[2]) for a in kat if a[0] == "field" and not str(a[1]).startswith("std::")})[:4], "; also from the collection: %s" % from_coll if from_coll else ""),
+                            "the Subscription Identifier of the PUBLISH, nothing of the session"))
         # payload intact
         agg = hp.origin(e.term["ops"][1], through_calls=False)
         intact = False
         fact = "payload is not RxPacket::Publish(publish)"
+        pub_op = None
         if agg[0] == "agg" and agg[2]["rv"].get("variant") == "Publish":
+            pub_op = agg[2]["rv"]["ops"][0]
+        elif e.term["ops"][1].get("k") in ("move", "copy") and (e.detail.get("ty") or "").endswith("PublishRx"):
+            pub_op = e.term["ops"][1]          # the stream carries the PUBLISH itself
+        if pub_op is not None and pub_op.get("k") != "const":
             # the local bound in the arm: `_9 = move (_6 as Publish).0`
             muts = []
-            chain = {agg[2]["rv"]["ops"][0]["pl"]["l"]}
+            chain = {pub_op["pl"]["l"]}
             # follow moves
-            cur = agg[2]["rv"]["ops"][0]
+            cur = pub_op
             for _ in range(5):
                 ds = hp.whole_defs(cur["pl"]["l"]) if cur.get("k") != "const" else []
                 if len(ds) == 1 and ds[0][0] == "stmt" and ds[0][3]["rv"]["k"] == "use" and ds[0][3]["rv"]["op"].get("k") != "const" \
@@ -286,7 +314,7 @@ def dispatch(ctx):
                         muts.append("%s:%d" % (hp.fn["file"], d[3]["line"]))
                 muts += [hp.site(i) for i, t, k in hp.calls_with_mut_ref_to(l)]
             root = hp.origin({"l": min(chain), "p": []}, through_calls=False)
-            from_arm = any(a[0] == "downcast" and a[1] == "Publish" for a in hp.atoms(agg[2]["rv"]["ops"][0]))
+            from_arm = any(a[0] == "downcast" and a[1] == "Publish" for a in hp.atoms(pub_op))
             intact = from_arm and not muts
             fact = "payload = the arm's packet moved whole (from variant Publish=%s), field writes / &mut uses before delivery: %s" % (from_arm, muts or "none")
         out.append(Inst("DISPATCH", "payload-intact", intact, e.site(), fact, "topic, payload, QoS, flags and properties unchanged"))
@@ -354,6 +382,11 @@ def adapter(ctx):
         if b.term(path[-1])["k"] == "return":
             rows.setdefault((inner, item, pkt), set()).add(ret)
     want = {("Ready", "Some", "Publish"): "Ready(Some(from(publish)))", ("Ready", "None", None): "Ready(None)", ("Pending", None, None): "Pending"}
+    # a stream whose channel carries the PUBLISH itself has no variant to test: the item is the message
+    carries_publish = any("UnboundedReceiver<codec::publish::PublishRx>" in (l_["ty"] or "") for l_ in b.locals) or \
+        any("codec::publish::PublishRx" in " ".join((t_["callee"].get("args") or []) + [t_["callee"].get("self_ty") or ""]) for _, t_ in b.calls(r"poll_next\w*$"))
+    if carries_publish and ("Ready", "Some", "Publish") not in rows:
+        want = {("Ready", "Some", None): "Ready(Some(from(publish)))", ("Ready", "None", None): "Ready(None)", ("Pending", None, None): "Pending"}
     for k, w in want.items():
         got = rows.get(k, set())
         out.append(Inst("ADAPTER", "inner=%s/%s/%s" % k, got == {w}, b.site(0), "returns %s on the %d distinct result(s) of the paths with this inner outcome" % (sorted(map(str, got)), len(got)),
@@ -376,7 +409,7 @@ def _poll_shape(e):
             y = x[2][0]
             if (y[0] == "call" and ("From" in y[1] or "Into" in y[1]) and "PublishData" in y[1]) or (y[0] == "agg" and y[1] == "PublishData"):
                 leaves = [l for l in sym_leaves(y) if l[0] == "place"]
-                if any("Publish" in l[3] for l in leaves):
+                if any("Publish" in l[3] for l in leaves) or any(tuple(l[3])[-2:] == ("Ready", "Some") for l in leaves):
                     return "Ready(Some(from(publish)))"
             return "Ready(Some(?))"
     return "?"
@@ -794,7 +827,7 @@ def own(ctx):
                 arcs.append((b, i, (t["callee"].get("args") or ["?"])[0]))
             if nm.endswith("Clone::clone"):
                 st = (t["callee"].get("self_ty") or "")
-                if "UnboundedSender<codec::packet::RxPacket>" in st or "oneshot::Sender" in st:
+                if re.search(r"UnboundedSender<codec::(packet::RxPacket|publish::PublishRx)>", st) or "oneshot::Sender" in st:
                     clones.append((b, i, st))
     ctx.analysed["call_sites"] += n_calls
     out.append(Inst("OWN", "no-leak-primitives", not leaks, leaks[0][0].site(leaks[0][1]) if leaks else "src/", "%d calls scanned; leak primitives: %s" % (n_calls, [(short_ty(n), b.site(i)) for b, i, n in leaks] or "none"),
@@ -814,6 +847,16 @@ def own(ctx):
             closes.append((b, i, callee_name(t)))
     out.append(Inst("OWN", "no-explicit-close", not closes, closes[0][0].site(closes[0][1]) if closes else "src/client", "explicit channel close calls: %s" % ([(short_ty(n), b.site(i)) for b, i, n in closes] or "none"),
                     "a subscription stream ends only when the context (its sender) is gone"))
+    # the request queue ends when the last handle is dropped: nothing the context owns holds a sending end of it
+    held = []
+    for a_ in ctx.facts.adts.values():
+        if a_["kind"] != "struct" or not a_["path"].startswith("client::context::"):
+            continue
+        for f_ in a_["variants"][0]["fields"]:
+            if re.search(r"ContextHandle|Sender<client::message::ContextMessage>", f_["ty"]):
+                held.append("%s.%s: %s" % (a_["path"].split("::")[-1], f_["name"], short_ty(f_["ty"])))
+    out.append(Inst("OWN", "context-holds-no-request-sender", not held, "src/client/context.rs", "fields of the context's own structs that hold a sending end of the request queue: %s" % (held or "none"),
+                    "run() ends with HandleClosed once every handle is gone: the context itself keeps no handle"))
     sess = ctx.facts.adt(SESSION)
     if not sess:
         raise AnchorLost("Session struct")
